@@ -8,10 +8,16 @@ func VH_C13_AddNeverReusesLiveID() {
 	live := &ClientConn{}
 	live.ID = [2]byte{vU8("live0"), vU8("live1")}
 	cm.clients[live.ID] = live
+	// a second arbitrary live user (covers adjacent IDs held across a counter wrap)
+	live2 := &ClientConn{}
+	live2.ID = [2]byte{vU8("live2_0"), vU8("live2_1")}
+	vAssume(live2.ID != live.ID)
+	cm.clients[live2.ID] = live2
 	cc := &ClientConn{}
 	cm.Add(cc)
 	vObserveBytes("newid", cc.ID[:])
-	vAssert("new_id_not_live", cc.ID != live.ID)
+	vAssert("new_id_not_live", cc.ID != live.ID && cc.ID != live2.ID)
+	vAssert("second_live_user_still_registered", cm.Get(live2.ID) == live2)
 	vAssert("live_user_still_registered", cm.Get(live.ID) == live)
 	vAssert("new_user_registered", cm.Get(cc.ID) == cc)
 }
